@@ -23,11 +23,17 @@ import (
 	"errors"
 	"sync"
 	"time"
+
+	"github.com/foxcpp/maddy/framework/exterrors"
 )
 
 // ErrBucketSetFull is returned by BucketSet.TakeContext when the key has no
 // bucket, the set has reached MaxBuckets and no stale bucket can be removed.
-var ErrBucketSetFull = errors.New("limiters: bucket set is full")
+//
+// Buckets become stale as time passes, so the condition is a temporary one: the
+// error is marked accordingly, otherwise the SMTP endpoint answers it with
+// a permanent 554 reply (and the sender gives up) while the queue retries it.
+var ErrBucketSetFull = exterrors.WithTemporary(errors.New("limiters: bucket set is full"), true)
 
 // BucketSet combines a group of Ls into a single key-indexed structure.
 // Basically, each unique key gets its own counter. The main use case for
